@@ -262,6 +262,34 @@ def self_call_twice(*a, **k):
     self_call_twice(1, *a, **k)
     return self_call_twice(2, *a, **k)
 def self_call_thrice(*a, **k): return [self_call_thrice(x, *a, **k) for x in (1, 2)] + [self_call_thrice(*a, z=1, **k)]
+# reported by sub-agents: things around a forwarding call that raise when discovery merely LOOKS at them
+def tag(name, **attrs): return name, attrs
+partial_non_identifier_kw = functools.partial(tag, 'div', **{'class': 'x', 'data-x': 'y'})
+class RaisingProperty:
+    @property
+    def conn(self): raise RuntimeError('not connected')
+    def run(self, *args, **kwargs): return self.conn.execute(*args, **kwargs)
+raising_property_bound = RaisingProperty().run
+class EqRaises:
+    def __eq__(self, other): raise TypeError('no comparison')
+    __hash__ = object.__hash__
+    def __call__(self, x, y=1): return x, y
+eq_raises_instance = EqRaises()
+def fwd_to_eq_raises(*args, **kwargs): return eq_raises_instance(*args, **kwargs)
+class NoTruth:
+    def __eq__(self, other): return self
+    __hash__ = object.__hash__
+    def __bool__(self): raise TypeError('truth value is ambiguous')
+NA = NoTruth()
+def default_without_truth(x=NA, *, k=NA): return x
+def fwd_to_default_without_truth(*args, **kwargs): return default_without_truth(*args, **kwargs)
+import unittest.mock
+mock_instance = unittest.mock.Mock()
+def fwd_to_mock(*args, **kwargs): return mock_instance(*args, **kwargs)
+class FalsyCallable:
+    def __len__(self): return 0
+    def __call__(self, a: int, b: str = 's') -> bool: return True
+falsy_callable_instance = FalsyCallable()
 '''
 
 
@@ -325,6 +353,18 @@ def adversarial_objects():
                         continue
                     if callable(m):
                         yield 'adv.%s.%s' % (name, mname), m
+
+
+def odd_source_objects():
+    """a function whose code object claims to come from an existing file that is not Python"""
+    import tempfile
+    d = tempfile.mkdtemp(prefix='sigtools-c07-')
+    path = os.path.join(d, 'notes.txt')
+    with open(path, 'w') as fh:
+        fh.write("it's not python\n" * 3)
+    g = {}
+    exec(compile("def target(x, y=1): return x\ndef from_text_file(*args, **kwargs): return target(*args, **kwargs)\n", path, 'exec'), g)
+    yield 'adv.from_text_file', g['from_text_file'], d
 
 
 def future_objects():
@@ -401,6 +441,19 @@ def obj_event(tid, name, obj, sphinx=True):
             sph = {'tag': 'raise', 'got': type(e).__name__, 'expected': '-'}
     return {'tid': tid, 'op': 'obj', 'name': name, 'insp': insp, 'routes': routes, 'plainfn': plainfn, 'own': own, 'small': nnames <= 7, 'sphinx': sph,
             'case': {'name': name, 'unhashable': unhashable(obj), 'excs': sorted({r['exc'] for r in routes if r['tag'] == 'raise'})}}
+
+
+def sphinx_module_event(tid, modname):
+    from sigtools import sphinxext
+    mod = importlib.import_module(modname)
+    try:
+        got = sphinxext.process_signature(None, 'module', modname, mod, {}, None, None)
+        sph = {'tag': 'ok', 'got': json.dumps(got), 'expected': '-'}
+    except BaseException as e:  # noqa
+        sph = {'tag': 'raise', 'got': type(e).__name__, 'expected': '-'}
+    none = {'tag': 'raise', 'exc': 'TypeError', 'ps': [], 'upgraded': False, 'declared': False}
+    return {'tid': tid, 'op': 'obj', 'name': modname, 'insp': none, 'routes': [dict(none, route='auto')], 'plainfn': False, 'own': [], 'small': True, 'sphinx': sph,
+            'case': {'name': modname, 'unhashable': False, 'excs': []}}
 
 
 def unhashable(obj):
@@ -500,6 +553,14 @@ def corpus_gen(mods, seed, frac):
                 yield obj_event('adv/%s' % name, name, obj)
             for name, obj in future_objects():
                 yield obj_event('adv/%s' % name, name, obj)
+            import shutil
+            for name, obj, tmpd in odd_source_objects():
+                try:
+                    yield obj_event('adv/%s' % name, name, obj)
+                finally:
+                    shutil.rmtree(tmpd, ignore_errors=True)
+            # the hook is also asked about modules themselves (a dotless name)
+            yield sphinx_module_event('adv/sphinx-module-json', 'json')
     return gen
 
 
